@@ -30,7 +30,7 @@ static vstr W_mt[4];
 static FTR W_hdr_arr[VF_N_HDR], W_body_arr[VF_N_BODY], W_trl_arr[VF_N_TRL], W_grp_arr[NEL][VF_N_GRP], W_grp_tmpl[VF_N_GRP];
 static uint16_t W_hdr_hash[VF_H_HDR], W_body_hash[VF_H_BODY], W_trl_hash[VF_H_TRL], W_grp_hash[VF_H_GRP];
 static FTH W_hdr_h, W_body_h, W_trl_h, W_grp_h;
-static struct S_struct_2eVHeader W_hdr; static struct S_struct_2eVTrailer W_trl; static struct S_struct_2eVMsg W_msg;
+static struct S_struct_2eVHeader W_hdr; static struct S_struct_2eVTrailer W_trl; static struct S_class_2eFIX8_3a_3aMessage W_msg;
 static struct S_struct_2eVGroup W_grp; static MB W_el[NEL];
 static uint8_t W_buf[MAXMSG + 1]; static vstr W_from;
 
